@@ -1313,3 +1313,127 @@ Lemma lcc_parallel_example :
 Proof.
   unfold conic_example, WGS84MeanRadius. split; apply Rgt_not_eq; c19_unfold; interval with (i_prec 64).
 Qed.
+
+(* ------------------------------------------------------------ setters: the configuration is history free *)
+
+Lemma setters_lemma :
+  (forall c l l', er_set_meridian (er_set_meridian c l) l' = er_set_meridian c l') /\
+  (forall c p p', er_set_parallels (er_set_parallels c p) p' = er_set_parallels c p') /\
+  (forall c l p, er_set_meridian (er_set_parallels c p) l = er_set_parallels (er_set_meridian c l) p) /\
+  (forall c l l', sn_set_meridian (sn_set_meridian c l) l' = sn_set_meridian c l') /\
+  (forall c l l', lc_set_meridian (lc_set_meridian c l) l' = lc_set_meridian c l') /\
+  (forall c l p l' p', cn_set_origin (cn_set_origin c l p) l' p' = cn_set_origin c l' p') /\
+  (forall c a b a' b', cn_set_parallels (cn_set_parallels c a b) a' b' = cn_set_parallels c a' b') /\
+  (forall c l p a b, cn_set_origin (cn_set_parallels c a b) l p = cn_set_parallels (cn_set_origin c l p) a b) /\
+  (forall c l p l' p', az_set_center (az_set_center c l p) l' p' = az_set_center c l' p').
+Proof. repeat split; reflexivity. Qed.
+
+(* every configuration is reached from any value of the same radius by one call of each setter *)
+Lemma setters_reach_lemma :
+  (forall c c', er_R c = er_R c' -> er_set_parallels (er_set_meridian c (er_lon0 c')) (er_lat1 c') = c') /\
+  (forall c c', cn_R c = cn_R c' ->
+     cn_set_parallels (cn_set_origin c (cn_lon0 c') (cn_lat0 c')) (cn_lat1 c') (cn_lat2 c') = c') /\
+  (forall c c', az_R c = az_R c' -> az_set_center c (az_lon0 c') (az_lat0 c') = c').
+Proof.
+  repeat split; intros c c' E; destruct c, c'; cbn in *; subst; reflexivity.
+Qed.
+
+(* ------------------------------------------------------------ F12 and F80 again, with witnesses whose
+   trigonometric values are exact (no interval arithmetic: the statements in Props/C19.v then depend on
+   the assumptions of Coq.Reals only) *)
+
+(* F12: radius 2, both parallels and the origin at latitude 30 (sin = 1/2 exactly), the origin itself *)
+Definition f12x_cfg : cn_cfg := Build_cn_cfg 2 0 30 30 30.
+
+Lemma dtor_30 : dtor 30 = PI / 6. Proof. unfold dtor. field. Qed.
+Lemma dtor_60 : dtor 60 = PI / 3. Proof. unfold dtor. field. Qed.
+
+Lemma f12x_n : alb_n f12x_cfg = 1 / 2.
+Proof. unfold alb_n, cn_phi1, cn_phi2, f12x_cfg; cbn [cn_lat1 cn_lat2]. rewrite dtor_30, sin_PI6. field. Qed.
+
+Lemma f12x_C : alb_C f12x_cfg = 5 / 4.
+Proof.
+  unfold alb_C. rewrite f12x_n. unfold cn_phi1, sq, f12x_cfg; cbn [cn_lat1].
+  rewrite dtor_30, sin_PI6, cos_PI6.
+  replace (sqrt 3 / 2 * (sqrt 3 / 2)) with (sqrt 3 * sqrt 3 / 4) by field.
+  rewrite sqrt_sqrt by lra. field.
+Qed.
+
+Lemma f12x_rho : alb_rho f12x_cfg (dtor 30) = 4 * sqrt (3 / 4).
+Proof.
+  unfold alb_rho. rewrite f12x_C, f12x_n, dtor_30, sin_PI6. unfold f12x_cfg; cbn [cn_R].
+  replace (5 / 4 - 2 * (1 / 2) * (1 / 2)) with (3 / 4) by field. field.
+Qed.
+
+Lemma f12x_fwd : alb_fwd_x f12x_cfg 0 30 = 0 /\ alb_fwd_y f12x_cfg 0 30 = 0.
+Proof.
+  unfold alb_fwd_x, alb_fwd_y, alb_rho0, cn_lam0, cn_phi0, f12x_cfg; cbn [cn_lon0 cn_lat0].
+  replace (dtor 0 - dtor 0) with 0 by ring. rewrite Rmult_0_r, sin_0, cos_0. split; ring.
+Qed.
+
+Lemma f12x_in_domain : alb_dom f12x_cfg 0 30.
+Proof.
+  unfold alb_dom, cn_parallels_ok. rewrite f12x_n.
+  unfold f12x_cfg, cn_lam0; cbn [cn_R cn_lat0 cn_lat1 cn_lat2 cn_lon0].
+  replace (dtor 0 - dtor 0) with 0 by ring. pose proof PI_RGT_0.
+  repeat split; lra.
+Qed.
+
+Lemma f12x_arg : alb_rev_arg_orig f12x_cfg (alb_fwd_x f12x_cfg 0 30) (alb_fwd_y f12x_cfg 0 30) = 5 / 4 - 12.
+Proof.
+  destruct f12x_fwd as [-> ->].
+  unfold alb_rev_arg_orig, alb_rev_rho_orig. rewrite f12x_C, f12x_n.
+  unfold alb_rho0, cn_phi0, f12x_cfg; cbn [cn_R cn_lat0]. fold f12x_cfg. rewrite f12x_rho.
+  assert (HS : 0 < sqrt (3 / 4)) by (apply sqrt_lt_R0; lra).
+  replace (sq 0 + sq (4 * sqrt (3 / 4) - 0)) with ((4 * sqrt (3 / 4)) * (4 * sqrt (3 / 4))) by (unfold sq; ring).
+  rewrite sqrt_square by lra.
+  replace (2 * (4 * sqrt (3 / 4)) * (2 * (4 * sqrt (3 / 4))) * (1 / 2) * (1 / 2))
+    with (16 * (sqrt (3 / 4) * sqrt (3 / 4))) by field.
+  rewrite sqrt_sqrt by lra. field.
+Qed.
+
+Lemma alb_orig_refuted_exact : exists c lon lat,
+  alb_dom c lon lat /\
+  alb_rev_arg_orig c (alb_fwd_x c lon lat) (alb_fwd_y c lon lat) < -1 /\
+  alb_rev_lat_orig c (alb_fwd_x c lon lat) (alb_fwd_y c lon lat) <> lat.
+Proof.
+  exists f12x_cfg, 0, 30. pose proof f12x_arg as H. split; [exact f12x_in_domain|]. split; [lra|].
+  unfold alb_rev_lat_orig, asin. rewrite H.
+  destruct (Rle_dec _ (-1)) as [_|Hn]; [|exfalso; apply Hn; lra].
+  unfold rtod. intros E. pose proof PI_RGT_0 as Hpi.
+  assert (- (PI / 2) * 180 / PI = -90) by (field; lra). lra.
+Qed.
+
+(* F80: centre (0, 60), the point (180, 60): straight across the pole, 60 degrees of arc away *)
+Definition f80x_cfg : az_cfg := Build_az_cfg 1 0 60.
+
+Lemma f80x_in_domain : or_dom f80x_cfg 180 60.
+Proof.
+  unfold or_dom, az_cfg_ok, az_off_centre. pose proof PI_RGT_0 as Hpi.
+  assert (Ed : dtor 180 - az_lam0 f80x_cfg = PI) by (unfold az_lam0, f80x_cfg, dtor; cbn [az_lon0]; field).
+  assert (EA : az_A f80x_cfg 180 60 = 0) by (unfold az_A; rewrite Ed, sin_PI; ring).
+  assert (EB : az_B f80x_cfg 180 60 = sqrt 3 / 2).
+  { unfold az_B, az_phi0. rewrite Ed, cos_PI. unfold f80x_cfg; cbn [az_lat0].
+    rewrite dtor_60, sin_PI3, cos_PI3. field. }
+  assert (EC : az_C f80x_cfg 180 60 = 1 / 2).
+  { unfold az_C, az_phi0. rewrite Ed, cos_PI. unfold f80x_cfg; cbn [az_lat0].
+    rewrite dtor_60, sin_PI3, cos_PI3.
+    replace (sqrt 3 / 2 * (sqrt 3 / 2) + 1 / 2 * (1 / 2) * -1) with (sqrt 3 * sqrt 3 / 4 - 1 / 4) by field.
+    rewrite sqrt_sqrt by lra. field. }
+  rewrite Ed, EA, EB, EC. unfold f80x_cfg; cbn [az_R az_lat0].
+  split; [lra|]. right. repeat split; try lra.
+  unfold sq. replace (0 * 0 + sqrt 3 / 2 * (sqrt 3 / 2)) with (sqrt 3 * sqrt 3 / 4) by field.
+  rewrite sqrt_sqrt by lra. lra.
+Qed.
+
+Lemma or_atan_refuted_exact : exists c lon lat,
+  or_dom c lon lat /\ or_rev_lon_orig c (or_fwd_x c lon lat) (or_fwd_y c lon lat) <> lon.
+Proof.
+  exists f80x_cfg, 180, 60. split; [exact f80x_in_domain|].
+  assert (Ex : or_fwd_x f80x_cfg 180 60 = 0).
+  { unfold or_fwd_x, az_lam0, f80x_cfg; cbn [az_lon0 az_R].
+    replace (dtor 180 - dtor 0) with PI by (unfold dtor; field). rewrite sin_PI. ring. }
+  rewrite Ex. unfold or_rev_lon_orig, or_rev_lon_orig_num, Rdiv.
+  rewrite !Rmult_0_l, atan_0, Rplus_0_r. unfold az_lam0. rewrite rtod_dtor.
+  unfold f80x_cfg; cbn [az_lon0]. lra.
+Qed.
